@@ -74,13 +74,17 @@ impl AgentSim {
         let local_creds = gen_creds(ctx.ch);
         let peer_creds = gen_other_creds(ctx.ch, &local_creds);
         let mut other_creds = gen_other_creds(ctx.ch, &peer_creds);
-        if other_creds.reference().key() == local_creds.reference().key() {
+        if same_hmac_key(&other_creds, &local_creds) || same_hmac_key(&other_creds, &peer_creds) {
             other_creds = Creds::Short("attacker-key".into());
         }
         let max_live = ctx.ch.range(1, if thorough { 8 } else { 4 }) as usize;
         Self {
             agent: new_agent(tcp, local),
-            model: Model::new(tcp, local),
+            model: {
+                let mut m = Model::new(tcp, local);
+                m.check_prop = ctx.cfg.prop.clone();
+                m
+            },
             base: anchor(),
             now: 0,
             pool,
@@ -344,7 +348,7 @@ impl AgentSim {
     }
 
     /// Build a response for `tid`; returns (bytes, label).
-    pub fn gen_response(&mut self, ctx: &mut Ctx, tid: u128, method: u16, request_signed: bool, kind_w: &[u32; 9]) -> (Vec<u8>, &'static str) {
+    pub fn gen_response(&mut self, ctx: &mut Ctx, tid: u128, method: u16, request_signed: bool, kind_w: &[u32; 10]) -> (Vec<u8>, &'static str) {
         let class = if ctx.ch.rare(1, 4) { 3 } else { 2 };
         let mut attrs = vec![];
         if class == 2 {
@@ -436,6 +440,18 @@ impl AgentSim {
                 }
                 (m.encode(), "truncated_sha256_valid")
             }
+            8 => {
+                // foreign peer / attacker: an integrity attribute whose length is not a legal one
+                // (the parser accepts it, validation must fail, the transaction must survive)
+                let mut m = RefMsg::new(class, method, tid);
+                let (ty, lens): (u16, &[usize]) = if ctx.ch.coin() { (refcodec::MI, &[16, 0, 4, 19, 21, 24, 32]) } else { (refcodec::MI256, &[12, 36, 0, 8, 17, 33, 64]) };
+                let l = *ctx.ch.pick(lens);
+                m.items.push(RefItem::Attr { ty, value: ctx.ch.bytes(l), pad: 0 });
+                if ctx.ch.coin() {
+                    m.items.push(RefItem::Fp { flip: None });
+                }
+                (m.encode(), "malformed_integrity_length")
+            }
             _ => {
                 // damaged in flight: truncated, the parser must refuse it and nothing may change
                 let b = mk(attrs, seals_of(signed_variant, &self.peer_creds));
@@ -445,7 +461,7 @@ impl AgentSim {
         }
     }
 
-    pub fn op_respond(&mut self, ctx: &mut Ctx, kind_w: &[u32; 9]) -> ScResult {
+    pub fn op_respond(&mut self, ctx: &mut Ctx, kind_w: &[u32; 10]) -> ScResult {
         // target: live (0), finished (1), unknown id (2), replay of an earlier delivered response (3)
         let live: Vec<(u128, bool, SocketAddr)> = self.model.live().map(|t| (t.tid, t.signed, t.dest)).collect();
         let done: Vec<(u128, bool, SocketAddr)> = self.model.txs.iter().filter(|t| t.status != Status::Live).map(|t| (t.tid, t.signed, t.dest)).collect();
@@ -527,7 +543,21 @@ impl AgentSim {
                 ctx.st.inc("out.delivered");
                 self.delivered_responses.push((bytes, from));
             }
-            Reply::Drop => ctx.st.inc("out.dropped"),
+            Reply::Drop => {
+                ctx.st.inc("out.dropped");
+                // C07: a dropped response leaves the transaction outstanding
+                if let Some(tid) = tid_of(&bytes) {
+                    if self.model.live_idx(tid).is_some() {
+                        let q = self.call(ctx, Call::QueryTx { tid })?;
+                        if !matches!(q, Reply::Tx(Some(_))) {
+                            // the same observation breaks C05 (gone without having completed) and C07
+                            let pr = if self.prop == "C05" { "C05" } else { "C07" };
+                            let v = Violation::new(pr, "drop_keeps_transaction_outstanding", label, format!("a response ({label}) for outstanding transaction {tid:#x} was dropped, and the transaction is no longer outstanding afterwards"));
+                            return Err(self.fail(ctx, v));
+                        }
+                    }
+                }
+            }
             Reply::ParseErr(_) => ctx.st.inc("out.parse_refused"),
             _ => {}
         }
@@ -652,10 +682,10 @@ impl AgentSim {
     }
 }
 
-fn response_kind_weights(profile: &str) -> [u32; 9] {
+fn response_kind_weights(profile: &str) -> [u32; 10] {
     match profile {
-        "forgery" => [10, 5, 6, 4, 6, 4, 3, 3, 1],
-        _ => [16, 3, 2, 1, 2, 1, 1, 1, 1],
+        "forgery" => [10, 5, 6, 4, 6, 4, 3, 3, 4, 1],
+        _ => [16, 3, 2, 1, 2, 1, 1, 1, 1, 1],
     }
 }
 
@@ -746,6 +776,9 @@ pub fn scenario(ctx: &mut Ctx) -> ScResult {
             Status::Delivered => {}
             Status::TimedOut | Status::Cancelled => {}
         }
+    }
+    for k in s.model.tolerated.drain(..) {
+        ctx.st.inc(k);
     }
     ctx.st.sim_ns += s.now as u128;
     ctx.st.nontrivial = s.seen_live_max >= 2 || s.faults > 0;
@@ -868,6 +901,24 @@ pub fn replays(ctx: &mut Ctx, s: &AgentSim, tcp: bool) -> ScResult {
         }
     }
     ctx.st.inc("replay.with_neighbours");
+    // (e) anchored in the process's *real past*: every instant of (the beginning of) the history
+    // predates the real moment the agent is built, which is what exposes a stray Instant::now()
+    // used as a lower bound.  How far back an Instant can go depends on the machine's uptime.
+    let end = hist.iter().filter_map(|(c, _)| match c { Call::Send { at, .. } | Call::Poll { at } => Some(*at), _ => None }).max().unwrap_or(0);
+    let real_now = Instant::now();
+    let mut back = Duration::from_nanos(end) + Duration::from_secs(1);
+    let mut past = real_now.checked_sub(back);
+    while past.is_none() && back > Duration::from_millis(1) {
+        back /= 2;
+        past = real_now.checked_sub(back);
+    }
+    if let Some(pb) = past {
+        let mut e = new_agent(tcp, local);
+        if let Some((i, got)) = replay_on(&mut e, hist, pb) {
+            return Err(replay_violation(ctx, "anchored_in_real_past", hist, i, &got, ""));
+        }
+        ctx.st.inc("replay.anchored_in_real_past");
+    }
     ctx.st.nontrivial = true;
     Ok(())
 }
